@@ -1,6 +1,7 @@
 //! vh — verification harness binary. Sub-commands bind the TLA+ specifications in /verif/specs to
 //! the real crates of /repo (path dependencies, feature `verif`).
 mod apigate;
+mod backup;
 mod bk;
 mod chunker;
 mod clusterprobe;
@@ -21,6 +22,10 @@ fn main() {
     if args.len() < 2 {
         eprintln!("usage: vh <subcommand> [args]");
         std::process::exit(2);
+    }
+    if args[1] == "db-reader" {
+        let r = backup::db_reader(&args[2], args[3].parse().unwrap_or(1000));
+        std::process::exit(if r.is_ok() { 0 } else { 2 });
     }
     let rt = tokio::runtime::Builder::new_multi_thread().worker_threads(std::env::var("VH_THREADS").ok().and_then(|s| s.parse().ok()).unwrap_or(2)).enable_all().build().unwrap();
     let res: eyre::Result<()> = rt.block_on(async {
@@ -45,6 +50,7 @@ fn main() {
             "cluster-probe" => clusterprobe::run(&args[2]).await,
             "api-gate" => apigate::run(&args[2]).await,
             "schema-replay" => schemareplay::run(&args[2]).await,
+            "backup-probe" => backup::run(&args[2], &args[3]).await,
             "sim-replay" => sim::run_replay(&args[2], &args[3]).await,
             "replay-members" => members::run(&args[2]),
             "replay-chunker" => chunker::run_chunker(&args[2]),
